@@ -625,6 +625,7 @@ TRANSPARENT = re.compile(
     r"|core::iter::traits::collect::IntoIterator::into_iter|<.* as core::iter::traits::collect::IntoIterator>::into_iter"
     r"|core::slice::<impl \[T\]>::(iter|len|first|last|get|to_vec|iter_mut)|alloc::vec::Vec::<T>::(len|iter|first|last|get|as_slice)"
     r"|alloc::vec::Vec::<T, A>::(len|as_slice|first|last)"
+    r"|core::ops::range::RangeInclusive::<Idx>::(start|end|new)|core::ops::range::Range::<Idx>::(start|end)"
     r"|(std::collections|alloc::collections|hashbrown)::.*::(len|iter|get|first|last|keys|values|first_key_value|last_key_value)"
     r")$")
 
@@ -849,7 +850,15 @@ def guarded_by(body, site_block, pred, conds=None):
     satisfies pred.  Returns (bool, witness path avoiding all such edges or None, matching edges)."""
     if conds is None:
         conds = edge_conditions(body)
-    removed = frozenset(eid for eid, c in conds.items() if pred(c))
+    removed = set(eid for eid, c in conds.items() if pred(c))
+    # a branch all of whose outgoing edges satisfy the predicate does not guard anything
+    by_src = defaultdict(list)
+    for e in body.edges():
+        by_src[e["src"]].append(e["id"])
+    for src, eids in by_src.items():
+        if all(x in removed for x in eids):
+            removed -= set(eids)
+    removed = frozenset(removed)
     seen, parent = body.reach_from(0, removed_edges=removed)
     if site_block in seen:
         return False, body.path_to(parent, 0, site_block), removed
